@@ -907,10 +907,79 @@ func (e *vfE7VEnv) run(w vfE7VWorld, r vfE7VReq) {
 	// process dies. Wait until no goroutine is left inside clusterinfo (a panicking one kills the process here).
 	vfE7WaitFetchers()
 	impl := e.cl.render(r.kind, rec.Code, rec.Body.Bytes())
+	if bad := vfE7SortCheck(r.kind, len(w.Lookupds) > 0, rec.Code, rec.Body.Bytes()); bad != "" {
+		fmt.Printf("E7-UNSORTED %s view (%s): %s\n", r.kind, r.tokens(), bad)
+	}
 	fmt.Fprintln(e.out.impl, impl)
 	e.out.impl.Flush()
 	e.out.n++
 	e.hist[fmt.Sprintf("%s:%d", r.kind, rec.Code)]++
+}
+
+// vfE7SortCheck: direct oracle on the ORDER of the lists a view returns (the correspondence compares them as
+// multisets): topic names strictly ascending (sort.Strings after Uniq); the per-node reports of the topic and
+// channel views ascending by hostname (TopicStatsByHost / ChannelStatsByHost, re-sorted on every Add); the
+// producers of /api/nodes ascending by hostname in nsqlookupd mode (ProducersByHost; GetNSQDProducers does
+// not sort) and each producer's topics ascending by name (sort.Sort(producer.Topics)).
+func vfE7SortCheck(kind string, lookupdMode bool, status int, body []byte) string {
+	if status != 200 {
+		return ""
+	}
+	asc := func(what string, keys []string, strict bool) string {
+		for i := 1; i < len(keys); i++ {
+			if keys[i] < keys[i-1] || (strict && keys[i] == keys[i-1]) {
+				return fmt.Sprintf("%s not in order: %q", what, keys)
+			}
+		}
+		return ""
+	}
+	type host struct {
+		Hostname string `json:"hostname"`
+	}
+	switch kind {
+	case "topics":
+		var d struct {
+			Topics []string `json:"topics"`
+		}
+		if json.Unmarshal(body, &d) == nil {
+			return asc("topic names", d.Topics, true)
+		}
+	case "topic", "channel":
+		var d struct {
+			Nodes []host `json:"nodes"`
+		}
+		if json.Unmarshal(body, &d) == nil {
+			var ks []string
+			for _, n := range d.Nodes {
+				ks = append(ks, n.Hostname)
+			}
+			return asc("node reports by hostname", ks, false)
+		}
+	case "nodes":
+		var d struct {
+			Nodes []struct {
+				Hostname string `json:"hostname"`
+				Topics   []struct {
+					Topic string `json:"topic"`
+				} `json:"topics"`
+			} `json:"nodes"`
+		}
+		if json.Unmarshal(body, &d) == nil && lookupdMode {
+			var ks []string
+			for _, n := range d.Nodes {
+				ks = append(ks, n.Hostname)
+				var ts []string
+				for _, t := range n.Topics {
+					ts = append(ts, t.Topic)
+				}
+				if bad := asc("topics of producer "+n.Hostname, ts, false); bad != "" {
+					return bad
+				}
+			}
+			return asc("producers by hostname", ks, false)
+		}
+	}
+	return ""
 }
 
 func (e *vfE7VEnv) close() {
